@@ -495,6 +495,9 @@ class NPShim:
         out[..., 2] = a_[..., 0] * b_[..., 1] - a_[..., 1] * b_[..., 0]
         return np.moveaxis(out, -1, axis) if out.ndim > 1 else out
 
+    def diagonal(self, x, offset=0, axis1=0, axis2=1):
+        return np.diagonal(to_obj(unwrap(x)), offset=offset, axis1=axis1, axis2=axis2)
+
     def trace(self, x, offset=0, axis1=0, axis2=1):
         return np.trace(to_obj(unwrap(x)), offset=offset, axis1=axis1, axis2=axis2)
 
